@@ -351,6 +351,9 @@ func parseAux(aux []byte) ([]sam.Aux, error) {
 				if j == -1 {
 					return nil, errors.New("bam: invalid zero terminated data: no zero")
 				}
+				if j < 3 {
+					return nil, errors.New("bam: invalid zero terminated data: zero in tag")
+				}
 				aa = append(aa, sam.Aux(aux[i:i+j:i+j]))
 				i += j + 1
 			case 'B':
